@@ -207,6 +207,15 @@ def _save_with_crash(dirname, it, w, crash_at, torn):
     events = []
     real_open, real_save, real_replace, real_rename = builtins.open, torch.save, os.replace, os.rename
 
+    pipe = {}
+
+    def die():
+        # the process dies here: no unwinding, no flushing of Python-level file buffers
+        import json as _j
+
+        os.write(pipe["w"], _j.dumps(events).encode())
+        os._exit(17)
+
     def hit(kind):
         events.append(kind)
         return crash_at is not None and len(events) - 1 == crash_at
@@ -220,7 +229,7 @@ def _save_with_crash(dirname, it, w, crash_at, torn):
                 if torn:
                     self._f.write(s[: max(0, len(s) // 2)])
                     self._f.flush()
-                raise _Crash()
+                die()
             return self._f.write(s)
 
         def __getattr__(self, n):
@@ -231,17 +240,32 @@ def _save_with_crash(dirname, it, w, crash_at, torn):
             return self
 
         def __exit__(self, *a):
+            # leaving the with-block flushes and closes the file: dying just before loses what is still buffered
+            if hit("close"):
+                die()
             return self._f.__exit__(*a)
+
+        def close(self):
+            if hit("close"):
+                die()
+            return self._f.close()
+
+    class BW(FW):
+        """binary file: torch.save writes to the underlying file (one 'write' event for the whole save)"""
+
+        def write(self, s):
+            return self._f.write(s)
 
     def p_open(file, mode="r", *a, **k):
         if "w" in mode and str(file).startswith(str(dirname)):
             if hit("open"):
-                raise _Crash()
+                die()
             f = real_open(file, mode, *a, **k)
-            return FW(f) if "b" not in mode else f
+            return FW(f) if "b" not in mode else BW(f)
         return real_open(file, mode, *a, **k)
 
     def p_save(obj, f, *a, **k):
+        f = getattr(f, "_f", f)
         if hit("write"):
             if torn:
                 buf = io.BytesIO()
@@ -249,24 +273,47 @@ def _save_with_crash(dirname, it, w, crash_at, torn):
                 data = buf.getvalue()
                 f.write(data[: len(data) // 2])
                 f.flush()
-            raise _Crash()
+            die()
         return real_save(obj, f, *a, **k)
 
     def p_replace(a, b, *x, **k):
         if str(a).startswith(str(dirname)):
             if hit("replace"):
-                raise _Crash()
+                die()
         return real_replace(a, b, *x, **k)
 
-    builtins.open, torch.save, os.replace, os.rename = p_open, p_save, p_replace, p_replace
-    try:
+    # the save runs in a forked child that dies with os._exit at the chosen event: nothing is flushed or unwound, exactly
+    # as when the process is killed (data still sitting in a Python file buffer is lost)
+    import json as _json
+
+    rfd, wfd = os.pipe()
+    pipe["w"] = wfd
+    pid = os.fork()
+    if pid == 0:
+        code = 0
         try:
-            ck.save(it)
-        except _Crash:
-            pass
-    finally:
-        builtins.open, torch.save, os.replace, os.rename = real_open, real_save, real_replace, real_rename
-    return events
+            os.close(rfd)
+            torch.set_num_threads(1)
+            builtins.open, torch.save, os.replace, os.rename = p_open, p_save, p_replace, p_replace
+            try:
+                ck.save(it)
+            except _Crash:
+                code = 17
+            except BaseException:  # noqa
+                code = 18
+            os.write(wfd, _json.dumps(events).encode())
+        finally:
+            os._exit(code)
+    os.close(wfd)
+    data = b""
+    while True:
+        chunk = os.read(rfd, 65536)
+        if not chunk:
+            break
+        data += chunk
+    os.close(rfd)
+    os.waitpid(pid, 0)
+    return _json.loads(data.decode()) if data else events
 
 
 PRIORS = {
@@ -337,7 +384,9 @@ def correspond(ctx):
         # the model enumerates: prefix0, [torn] prefix1, ...; the implementation sequence is ordered:
         # for j: crash-before-j (non-torn) then torn; reorder the implementation's to the model's convention
         impl_seq = []
-        st = case["states"]
+        # the model's trace has no separate close effect (a write persists when issued, the with-block closes before the
+        # next effect): dying just before a close is an extra state of the implementation, checked by the oracle only
+        st = [x for x in case["states"] if x["event"] != "close"]
         i = 0
         while i < len(st):
             if i + 1 < len(st) and st[i + 1]["torn"]:
@@ -351,7 +400,7 @@ def correspond(ctx):
         corr.dist("prior", case["prior"])
         for e in case["events"]:
             corr.dist("event", e)
-        corr.compare({"prior": case["prior"], "save": [case["it"], case["w"]], "events": case["events"]}, impl_seq, model_seq, nontrivial=True)
+        corr.compare({"prior": case["prior"], "save": [case["it"], case["w"]], "events": [e for e in case["events"] if e != "close"]}, impl_seq, model_seq, nontrivial=True)
         corr.evaluations += len(impl_seq) - 1
     ctx._fi = fi
     # resume arithmetic
@@ -481,6 +530,23 @@ def oracles(ctx, deep):
         if b["w"] != full["w"] or b["last_epoch"] != full["last_epoch"]:
             site = {"kind": "resume", "how": how, "checkpointed": j >= 5}
             add(Violation("resume-equals-uninterrupted", "%s: parameter %r / schedule epoch %d, uninterrupted run %r / %d; batches applied to the parameters: %s" % (call, b["w"], b["last_epoch"], full["w"], full["last_epoch"], applied), {"call": call, "observed_w": b["w"], "expected_w": full["w"], "observed_epoch": b["last_epoch"], "expected_epoch": full["last_epoch"], "iterations_applied": applied, "lr_resumed": [s[0] for s in b["steps"]], "lr_uninterrupted_tail": lr_full[len(lr_full) - len(b["steps"]) :]}, site))
+    # the full training state: every object with a state_dict that the engine hands to its Checkpointer is in the file
+    try:
+        from .. import engine_harness as H
+
+        for extra in (False, True):
+            d = tempfile.mkdtemp(prefix="c15k_", dir=root)
+            r = H.train(d, [float(i + 1) for i in range(8)], [[i] for i in range(8)], 8, lr=0.5, opt="sgd", sched=_sched, extra_model=extra, checkpoint_steps=2)
+            shutil.rmtree(d)
+            runs += 1
+            if r["stored"] is None:
+                add(Violation("checkpoint-written", "Engine.train of 8 iterations (checkpoint every 2) leaves no checkpoint behind", {"extra_model": extra}, {"kind": "no-checkpoint"}))
+                continue
+            missing = [k for k in r["stateful"] if k not in r["stored"]] + ([] if "model" in r["stored"] else ["model"])
+            if missing:
+                add(Violation("full-state-stored", "the checkpoint written by Engine.train lacks the state of %s (objects with a state_dict handed to the Checkpointer: %s; keys stored: %s)" % (missing, r["stateful"], r["stored"]), {"missing": missing, "stateful": r["stateful"], "stored": r["stored"], "extra_model": extra}, {"kind": "state-missing", "missing": ",".join(missing)}))
+    except Exception as e:  # noqa
+        add(Violation("resume-runs", "checkpoint content probe raises %s: %s" % (type(e).__name__, str(e)[:100]), {}, {"kind": "probe-raises"}))
     runs += _lr_oracles(ctx, add)
     shutil.rmtree(root, ignore_errors=True)
     ctx.oracle_runs = runs
